@@ -546,6 +546,21 @@ func initLib() {
 		}
 	}
 
+	// ---- common.BytesToHash: the hash value whose 32 bytes are a function (tohash32: right-aligned copy /
+	// truncation) of the argument's bytes
+	libTable["com.tuntun.rangers/node/src/common.BytesToHash"] = func(vc *VC, fr *Frame, st *State, a []Val, at []types.Type, rt types.Type, pos token.Pos) Val {
+		vc.usedLib("common.BytesToHash")
+		arr, ok := rt.Underlying().(*types.Array)
+		r := vc.freshVal(st, "tohash", rt)
+		if !ok || r.T.T == nil {
+			return r
+		}
+		vc.needBytes, vc.needToHash = true, true
+		n := vc.idxLit(arr.Len())
+		vc.assume(st, tEq(vc.bytesOf(r.T, vc.idxLit(0), n), mk("(tohash32 "+bytesOfSlice(vc, st, a[0].T).S+")", &Sort{K: SOpaque, Name: "Bytes"})))
+		return r
+	}
+
 	// ---- math/bits
 	libTable["math/bits.Add64"] = func(vc *VC, fr *Frame, st *State, a []Val, at []types.Type, rt types.Type, pos token.Pos) Val {
 		vc.usedLib("bits.Add64")
@@ -1014,6 +1029,9 @@ func (vc *VC) preludeText() string {
 		b.WriteString("(declare-const bytes-nil Bytes)\n")
 		// beval: the unsigned big-endian integer a byte string denotes (big.Int.SetBytes); beenc: the minimal
 		// big-endian encoding of a natural number (big.Int.Bytes)
+		if vc.needToHash {
+			b.WriteString("(declare-fun tohash32 (Bytes) Bytes)\n")
+		}
 		b.WriteString("(declare-fun beval (Bytes) Int)\n(declare-fun beenc (Int) Bytes)\n")
 		b.WriteString("(assert (forall ((x Bytes)) (! (>= (beval x) 0) :pattern ((beval x)))))\n")
 		b.WriteString("(assert (forall ((n Int)) (! (=> (>= n 0) (= (beval (beenc n)) n)) :pattern ((beenc n)))))\n")
